@@ -434,7 +434,7 @@ class LibHarness(Harness):
             # ---- C06: link titles on the incrementally updated graph are those of the current documents
             cur_titles = {}
             for k, tok_ in texts.items():
-                first = [b for b in self.cur_docs[tok_][0] if b['k'] != 'Meta'][:1]
+                first = [b for b in self.cur_docs[tok_][0] if b['k'] not in ('Meta', 'Blank')][:1]          # a leading blank line is not a block
                 cur_titles[k] = h_doc.inl_text_neutral(first[0]) if first and first[0]['k'] == 'Header' else None
             for k in sorted(texts):
                 got_links = tree_links(oi['tree:' + k])
